@@ -184,8 +184,9 @@ def make(sid, items, endian, consts, width=48, embedded=False, term=False):
     cs.update(consts)
     add_constants(cfg, cs)
     src = ['.org v0', 'pre: .byte 17'] + [_line(it, k) for k, it in enumerate(items)] + ['tail: .byte 238']
+    # the image has no gap, so the fill option (any value) must not show anywhere in it
     return DataShape(sid, config=cfg, files={'main.asm': '\n'.join(src) + '\n'}, start=Sym('v0', 0, 0xF000),
-                     items=items, endian=endian, width=width)
+                     fill=Sym('wf', -300, 300), items=items, endian=endian, width=width)
 
 
 def shapes(tier, seed):
